@@ -13,7 +13,8 @@ RULE = ('TLC explores 2 connections over the authentication catalogue with a pas
         'checks C17_Gate (every command but AUTH/PING/QUIT refused, nothing changes, only the exact password '
         'authenticates, per connection); its transitions are replayed on a server started with requirepass; then EVERY '
         'command name the server dispatches (extracted from the match arms of server.rs and required to be in the spec table) '
-        'is sent unauthenticated in three connection states and two pipeline positions; any reply other than one error, '
+        'is sent unauthenticated in three connection states and two pipeline positions; unauthenticated connections are killed by an authenticated '
+        'CLIENT KILL while their pipeline is in flight, both handled in one event-loop pass (hook H2 gate), killer visited before and after the victim; any reply other than one error, '
         'any unsolicited byte, and any difference seen afterwards by an authenticated control connection (dataset dump, '
         'PUBLISH receiver counts, INFO replication) is a rejection by the trace spec.')
 ASSUMPTIONS = ['command names are extracted from quoted match arms in src/network/server.rs',
@@ -157,6 +158,73 @@ def probe(ctx, srv, tr, cid, name, state, position):
         s.close(c)
 
 
+def kill_race(ctx, srv, tr, s, rounds):
+    """Connection state dimension: an unauthenticated connection that an authenticated client kills (CLIENT KILL ID) while
+    it has requests in flight.  The event loop is held at its top (hook H2 gate) until both the kill and the victim's
+    pipeline sit in the socket buffers, then released, so that both are handled in ONE pass — with the killer visited
+    before and after the victim.  Whatever the victim is answered must be an error (or nothing: the connection is gone)."""
+    cases = 0
+    a1 = s.open()
+    s.cmd(a1, [b'AUTH', PW])
+    pipeline = [[b'SET', b'k', b'owned'], [b'GET', b'k'], [b'RPUSH', b'kl', b'owned'], [b'EVAL', b"return redis.call('SET','ks','owned')", b'0'],
+                [b'SUBSCRIBE', b'k'], [b'FLUSHALL']]
+    for i in range(rounds):
+        if not srv.alive():
+            break
+        v = s.open()                     # the victim: never authenticates
+        a2 = s.open()
+        s.cmd(a2, [b'AUTH', PW])
+        killer = a1 if i % 2 == 0 else a2
+        vport = s.clients[v].s.getsockname()[1]
+        r = s.clients[killer].call([b'CLIENT', b'LIST'])
+        vid = None
+        if r[0] == 'bulk':
+            for line in r[1].split(b'\n'):
+                m = re.match(rb'id=(\d+) addr=\S*:(\d+) ', line)
+                if m and int(m.group(2)) == vport:
+                    vid = m.group(1)
+        if vid is None:
+            tr.emit({'k': 'note', 'text': 'kill-race: victim not found in CLIENT LIST'})
+            s.close(v); s.close(a2)
+            continue
+        srv.ctl.cmd('GATE on')
+        try:
+            t0 = tr.now()
+            reqs = pipeline[i % 3:] + pipeline[:i % 3]
+            s.clients[v].send_raw(b''.join(resp.enc_cmd(a) for a in reqs))
+            s.clients[killer].send([b'CLIENT', b'KILL', b'ID', vid])
+            srv.ctl.cmd('STEP 1')
+        finally:
+            srv.ctl.cmd('GATE off')
+        kr = s.clients[killer].recv(2.0)
+        frames = []
+        closed = False
+        while len(frames) < len(reqs) + 2:
+            f = s.clients[v].recv(0.3)
+            if f[0] in ('none', 'closed', 'garbage'):
+                closed = f[0] == 'closed'
+                break
+            frames.append(f)
+        t1 = tr.now() + 1
+        tr.emit({'k': 'cmd', 'c': killer, 'argv': [list(x) for x in [b'CLIENT', b'KILL', b'ID', vid]], 'r': resp.to_json(kr), 't0': t0, 't1': t1})
+        for j, f in enumerate(frames[:len(reqs)]):
+            tr.emit({'k': 'cmd', 'c': v, 'argv': [list(x) for x in reqs[j]], 'r': resp.to_json(f), 't0': t0, 't1': t1})
+        if len(frames) > len(reqs):
+            tr.emit({'k': 'extra', 'c': v, 'rs': [resp.to_json(f) for f in frames[len(reqs):]][:5]})
+        s.clients[v].close()
+        del s.clients[v]
+        tr.emit({'k': 'dropped', 'c': v})
+        # what the authenticated side sees afterwards
+        s.cmd(a2, [b'GET', b'k'])
+        s.cmd(a2, [b'GET', b'ks'])
+        s.cmd(a2, [b'LRANGE', b'kl', b'0', b'-1'])
+        s.cmd(a2, [b'PUBLISH', b'k', b'x'])
+        s.close(a2)
+        cases += 1
+    s.close(a1)
+    return cases
+
+
 def control_view(ctx, srv, s, admin):
     """What an authenticated connection sees: dataset, subscriptions (via PUBLISH counts), replicas."""
     workloads.dump_db(s, admin)
@@ -215,6 +283,11 @@ def run(ctx):
         if not srv.alive():
             break
     if srv.alive():
+        control_view(ctx, srv, s, admin)
+    if srv.alive():
+        nk = kill_race(ctx, srv, tr, s, 12 if ctx.quick else 96)
+        ctx.extra_cov['kill_races'] = nk
+        cases += nk
         control_view(ctx, srv, s, admin)
     # wrong passwords
     wrongs = [b'p', b'pw ', b'PW', b'Pw', b'', b'pw\x00', b'\xffpw', b'pwpw', b'wp']
